@@ -5,6 +5,7 @@ import (
 	"context"
 	"fmt"
 	goat "github.com/avos-io/goat"
+	"google.golang.org/grpc"
 	"google.golang.org/grpc/stats"
 	"io"
 	"strings"
@@ -18,6 +19,7 @@ func init() { register("C01", c01) }
 
 func c01(tier string) []*explore.Scenario {
 	var out []*explore.Scenario
+	out = append(out, c01TwoServes(1, 16, 2), c01TwoServes(2, 16, 1), c01TwoServes(2, 0, 1), c01TwoServes(12, 64, 0))
 	for _, ser := range []bool{false, true} {
 		for _, cp := range []int{0, 64} {
 			po := env.PipeOpts{Cap: cp, Serialize: ser}
@@ -500,6 +502,64 @@ func c01DemuxKeyReuse(rounds, between, bound int) *explore.Scenario {
 					}
 				}
 			}
+			finishDirect(d, w, false) // (wire protocol)
+		},
+	}
+}
+
+// c01TwoServes: one Server serving two transports at once (Serve may be called once per connection);
+// k callers on each connection start together, so the two connections use the same stream ids at
+// the same time. Each caller gets the reply to its own request, on its own connection.
+func c01TwoServes(k, capn, bound int) *explore.Scenario {
+	fam := "C01/two-serves"
+	return &explore.Scenario{
+		Name: fmt.Sprintf("C01/two-serves/k=%d/cap=%d/d=%d", k, capn, bound), Family: fam, Prop: "C01", Bound: bound,
+		Run: func() {
+			w := env.NewWorld()
+			d := env.NewDirect(w, env.DirectOpts{Pipe: env.PipeOpts{Cap: capn}})
+			p2 := env.NewPipe(d.Tap, env.PipeOpts{Name: "w2", Cap: capn})
+			serve2Done := false
+			vsched.GoNamed("serve2", func() { d.Srv.Serve(context.Background(), p2.B); serve2Done = true })
+			cc2 := goat.NewClientConn(p2.A, "cli2", "srv")
+			vsched.Settle()
+			vsched.Explore(true)
+			var recs []*env.Rec
+			for i := 0; i < k; i++ {
+				for j, cc := range []grpc.ClientConnInterface{d.CC, cc2} {
+					cc := cc
+					r := w.Rec(fmt.Sprintf("c%d-%d", j+1, i), "Unary")
+					recs = append(recs, r)
+					vsched.GoNamed("caller-"+r.Tag, func() { w.CallUnary(cc, context.Background(), r, "req-"+r.Tag) })
+				}
+			}
+			vsched.Quiesce()
+			for _, r := range recs {
+				checkUnary(r, "req-"+r.Tag, fam)
+			}
+			for _, e := range d.Tap.Events {
+				if e.Dir != "b2a" {
+					continue
+				}
+				dst := e.Rpc.GetHeader().GetDestination()
+				if (e.Wire == "w" && dst != "cli") || (e.Wire == "w2" && dst != "cli2") {
+					vsched.Fail(fam+"|wrong-connection", "a reply for %q (id %d) was written on the connection of the other client (wire %s)", dst, e.Rpc.GetId(), e.Wire)
+				}
+			}
+			// a second round after the first connection has gone: the other connection is not affected
+			d.Pipe.A.Break()
+			d.Pipe.B.Break()
+			vsched.Quiesce()
+			late := w.Rec("late", "Unary")
+			vsched.GoNamed("caller-late", func() { w.CallUnary(cc2, context.Background(), late, "req-late") })
+			vsched.Quiesce()
+			checkUnary(late, "req-late", fam)
+			p2.A.Break()
+			p2.B.Break()
+			vsched.Quiesce()
+			if !d.ServeDone || !serve2Done {
+				vsched.Fail(fam+"|serve-hang", "Serve did not return on both connections after they closed")
+			}
+			finishDirect(d, w, false) // (wire protocol)
 		},
 	}
 }
